@@ -349,9 +349,18 @@ def check(run):
     mc(run)
     gen(run, w)
     trace(run, w)
+    title_spellings(run)
+
+
+def title_spellings(run):
+    from harness.props import c08
+    c08.title_spellings(run)
 
 
 def replay(run, case):
+    if case.get('kind') == 'title_spellings':
+        title_spellings(run)
+        return
     w = xc.World(run)
     if case.get('kind') == 'trace':
         tr = record_trace(w, random.Random(case['in']['trace_seed']), case['in']['len'])
